@@ -1,85 +1,17 @@
 (* Entry point evaluated by the harness-written case files for C15.
 
    The theorems of Props/C15.v hold for every digest function H.  To EVALUATE the Model and the
-   monitor on harness cases a concrete H is needed; two instances are used:
-   - table: the case carries the finite map (hash input -> digest) holding what Go's crypto/md5
-     returned for the inputs this case needs; a digest request outside the table is reported as
-     [OMiss] (a tie-1 mismatch by construction), never answered with a default;
-   - md5: an executable MD5 (RFC 1321) written in Gallina below, used on the flagged cases
-     (all corpus cases and a sample of every stream); on those the table entries are also checked
-     against it, which cross-checks Gallina md5 against crypto/md5.
-   No theorem depends on this MD5. *)
+   monitor on harness cases a concrete H is needed: H := md5, the executable MD5 (RFC 1321) of
+   Model/CoaMd5.v, on EVERY step of every case. So the monitor itself decides "the Request
+   Authenticator verifies" and "the Response Authenticator of the datagram that was sent verifies";
+   it does not take these facts from the driver. The crypto/md5 digests the driver computed (for its
+   own verdict [o_authentic] and for every response it observed) are shipped as a table and each entry
+   is compared with md5 of its key: a disagreement between Gallina md5 and crypto/md5 is reported as
+   [OMiss] (a tie-1 mismatch by construction). No theorem depends on this MD5. *)
 From Coq Require Import NArith List Bool.
-From Verif Require Import Base.Word Base.Check Model.Coa Model.CoaSpec.
+From Verif Require Import Base.Word Base.Check Model.Coa Model.CoaSpec Model.CoaMd5.
 Import ListNotations.
 Local Open Scope N_scope.
-
-(* ---------- MD5 (executable instance only) ---------- *)
-Definition m32 : N := 4294967295.
-Definition add32 (a b : N) : N := N.land (a + b) m32.
-Definition rotl32 (x c : N) : N := N.lor (N.land (N.shiftl x c) m32) (N.shiftr x (32 - c)).
-Definition not32 (x : N) : N := N.lxor x m32.
-
-Definition md5_K : list N := [
-3614090360; 3905402710; 606105819; 3250441966; 4118548399; 1200080426; 2821735955; 4249261313; 1770035416; 2336552879; 4294925233; 2304563134; 1804603682; 4254626195; 2792965006; 1236535329; 4129170786; 3225465664; 643717713; 3921069994; 3593408605; 38016083; 3634488961; 3889429448; 568446438; 3275163606; 4107603335; 1163531501; 2850285829; 4243563512; 1735328473; 2368359562; 4294588738; 2272392833; 1839030562; 4259657740; 2763975236; 1272893353; 4139469664; 3200236656; 681279174; 3936430074; 3572445317; 76029189; 3654602809; 3873151461; 530742520; 3299628645; 4096336452; 1126891415; 2878612391; 4237533241; 1700485571; 2399980690; 4293915773; 2240044497; 1873313359; 4264355552; 2734768916; 1309151649; 4149444226; 3174756917; 718787259; 3951481745].
-Definition md5_S : list N := [
-7;12;17;22;7;12;17;22;7;12;17;22;7;12;17;22;
-5;9;14;20;5;9;14;20;5;9;14;20;5;9;14;20;
-4;11;16;23;4;11;16;23;4;11;16;23;4;11;16;23;
-6;10;15;21;6;10;15;21;6;10;15;21;6;10;15;21].
-
-(* (i, K[i], s[i]) *)
-Fixpoint enum {A} (i : N) (l : list A) : list (N * A) :=
-  match l with [] => [] | x :: tl => (i, x) :: enum (i + 1) tl end.
-Definition md5_tab : list (N * (N * N)) := enum 0 (combine md5_K md5_S).
-
-Definition md5_step (M : list N) (st : N * N * N * N) (e : N * (N * N)) : N * N * N * N :=
-  let '(a, b, c, d) := st in
-  let '(i, (k, s)) := e in
-  let '(f, g) :=
-    if i <? 16 then (N.lor (N.land b c) (N.land (not32 b) d), i)
-    else if i <? 32 then (N.lor (N.land d b) (N.land (not32 d) c), N.land (5 * i + 1) 15)
-    else if i <? 48 then (N.lxor (N.lxor b c) d, N.land (3 * i + 5) 15)
-    else (N.lxor c (N.lor b (not32 d)), N.land (7 * i) 15) in
-  let f' := add32 (add32 (add32 f a) k) (nth (N.to_nat g) M 0) in
-  (d, add32 b (rotl32 f' s), b, c).
-
-Fixpoint le_words (n : nat) (l : list N) : list N :=   (* n little-endian 32-bit words *)
-  match n with
-  | O => []
-  | S k => match l with
-           | b0 :: b1 :: b2 :: b3 :: tl => (b0 + 256 * (b1 + 256 * (b2 + 256 * b3))) :: le_words k tl
-           | _ => []
-           end
-  end.
-
-Definition md5_block (st : N * N * N * N) (blk : list N) : N * N * N * N :=
-  let '(a0, b0, c0, d0) := st in
-  let '(a, b, c, d) := fold_left (md5_step (le_words 16 blk)) md5_tab st in
-  (add32 a0 a, add32 b0 b, add32 c0 c, add32 d0 d).
-
-Fixpoint md5_blocks (fuel : nat) (st : N * N * N * N) (l : list N) : N * N * N * N :=
-  match fuel with
-  | O => st
-  | S k => match l with
-           | [] => st
-           | _ => md5_blocks k (md5_block st (firstn 64 l)) (skipn 64 l)
-           end
-  end.
-
-Fixpoint le_bytes_n (n : nat) (v : N) : list N :=
-  match n with O => [] | S k => N.land v 255 :: le_bytes_n k (N.shiftr v 8) end.
-
-Definition md5_pad (msg : list N) : list N :=
-  let n := N.of_nat (length msg) in
-  let z := N.land (55 + 64 - N.land n 63) 63 in   (* zero bytes so that n + 1 + z = 56 mod 64 *)
-  msg ++ [128] ++ repeat 0 (N.to_nat z) ++ le_bytes_n 8 (N.land (8 * n) 18446744073709551615).
-
-Definition md5 (msg : list N) : list N :=
-  let p := md5_pad msg in
-  let '(a, b, c, d) := md5_blocks (S (Nat.div (length p) 64)) (1732584193, 4023233417, 2562383102, 271733878) p in
-  le_bytes_n 4 a ++ le_bytes_n 4 b ++ le_bytes_n 4 c ++ le_bytes_n 4 d.
-
 
 (* ---------- oracle instances ---------- *)
 Fixpoint lookup (k : bytes) (t : list (bytes * bytes)) : option bytes :=
@@ -94,8 +26,36 @@ Fixpoint run_o (Ho : bytes -> option bytes) (p : prog) : option outcome :=
   | Hash key k => match Ho key with Some d => run_o Ho (k (digest16 d)) | None => None end
   end.
 
-Definition Ho_of (o : op) : bytes -> option bytes :=
-  if o_md5 o then (fun k => Some (md5 k)) else (fun k => lookup k (o_tbl o)).
+Definition Ho_of (o : op) : bytes -> option bytes := fun k => Some (md5 k).
+
+(* ---------- Message-Authenticator of a request (generator self-check only) ----------
+   first attribute of type 80 in a TLV area: offset of its value and the value's length *)
+Fixpoint find_ma (fuel : nat) (off : nat) (l : bytes) : option (nat * nat) :=
+  match fuel with
+  | O => None
+  | S f =>
+      match l with
+      | t :: al :: rest =>
+          let alen := N.to_nat al in
+          if Nat.ltb alen 2%nat || Nat.ltb (length l) alen then None
+          else if t =? 80 then Some ((off + 2)%nat, (alen - 2)%nat)
+          else find_ma f (off + alen)%nat (skipn (alen - 2)%nat rest)
+      | _ => None
+      end
+  end.
+(* 0: no attribute 80; 1: value = HMAC-MD5(secret, packet with zero Request Authenticator and zero
+   Message-Authenticator value) (RFC 5176 3.5 / RFC 3579 3.2); 2: anything else *)
+Definition ma_status (secret dg : bytes) : N :=
+  if negb (s_complete dg) then 0 else
+  let ats := s_attrs dg in
+  match find_ma (S (length ats)) 0%nat ats with
+  | None => 0
+  | Some (o, n) =>
+      if Nat.eqb n 16%nat &&
+         bytes_eqb (firstn 16%nat (skipn o ats))
+                   (hmac_md5 secret (firstn 4%nat dg ++ repeat 0 16%nat ++ firstn o ats ++ repeat 0 16%nat ++ skipn (o + 16)%nat ats))
+      then 1 else 2
+  end.
 
 (* ---------- equality on projected observables ---------- *)
 Definition obytes_eqb (a b : option bytes) : bool :=
@@ -143,7 +103,8 @@ Record mstate := { m_secret : bytes; m_coa : bool; m_dm : bool; m_stale : bytes 
 
 Definition step (s : mstate) (o : op) : mstate * out * list N :=
   let p := coa_prog model_fixed (m_secret s) (m_coa s) (m_dm s) (fun _ _ => o_hr o) (m_stale s) (o_dg o) in
-  let tbl_ok := if o_md5 o then forallb (fun kv => bytes_eqb (md5 (fst kv)) (snd kv)) (o_tbl o) else true in
+  let tbl_ok := forallb (fun kv => bytes_eqb (md5 (fst kv)) (snd kv)) (o_tbl o) &&
+                ((o_ma o =? 0) || (o_ma o =? ma_status (m_secret s) (o_dg o))) in
   let r := if tbl_ok then match run_o (Ho_of o) p with None => OMiss | Some x => obs_of x end else OMiss in
   (* a panic ends the goroutine; the harness restarts the loop, which allocates a fresh buffer *)
   let stale' := match r with OPanic => [] | _ => recv_arr (m_stale s) (o_dg o) end in
@@ -159,14 +120,14 @@ Definition accept_op (ss : sstate) (o : op) (r : out) : sstate + N := accept (Ho
      resps = observed responses r, each with crypto/md5(r[0:4] ++ dg[4:20] ++ r[20:] ++ secret) *)
 Definition st_full (dg : bytes) (ok : bool) (cause : N) (msg : bytes) (authentic : bool)
            (rd : option (N * bytes)) (resps : list (bytes * bytes)) (calls : list (N * request))
-           (panicked use_md5 : bool) (sec : bytes) : op * out :=
+           (panicked use_md5 : bool) (ma : N) (sec : bytes) : op * out :=
   let t1 := match rd with
             | Some (L, d) => [(firstn 4%nat dg ++ repeat 0 16%nat ++ firstn (N.to_nat L - 20)%nat (skipn 20%nat dg) ++ sec, d)]
             | None => []
             end in
   let t2 := map (fun rp => (firstn 4%nat (fst rp) ++ firstn 16%nat (skipn 4%nat dg) ++ skipn 20%nat (fst rp) ++ sec, snd rp)) resps in
   ({| o_dg := dg; o_hr := {| h_ok := ok; h_cause := cause; h_msg := msg |}; o_authentic := authentic;
-      o_tbl := t1 ++ t2; o_md5 := use_md5 |},
+      o_tbl := t1 ++ t2; o_md5 := use_md5; o_ma := ma |},
    if panicked then OPanic else OObs calls (map fst resps)).
 
 (* the datagram of a step: literal, or the case's base datagram with its middle replaced
@@ -176,8 +137,8 @@ Definition splice (p : N) (m : bytes) (s : N) (base : bytes) : bytes :=
   firstn (N.to_nat p) base ++ m ++ skipn (length base - N.to_nat s)%nat base.
 Definition st (dgf : bytes -> bytes) (ok : bool) (cause : N) (msg : bytes) (authentic : bool)
            (rd : option (N * bytes)) (resps : list (bytes * bytes)) (calls : list (N * request))
-           (panicked use_md5 : bool) (base sec : bytes) : op * out :=
-  st_full (dgf base) ok cause msg authentic rd resps calls panicked use_md5 sec.
+           (panicked use_md5 : bool) (ma : N) (base sec : bytes) : op * out :=
+  st_full (dgf base) ok cause msg authentic rd resps calls panicked use_md5 ma sec.
 
 (* case: secret, CoA handler installed, Disconnect handler installed, base datagram, trace *)
 Definition case := (bytes * bool * bool * bytes * list (bytes -> bytes -> op * out))%type.
